@@ -194,7 +194,7 @@ func c09Cases(level int) []SCase {
 
 func c09(ctx *Ctx) {
 	cases := c09Cases(ctx.Level)
-	runBehaviour(ctx, behaviour{Name: "defaults", Cases: cases, Devs: c09Devs, Values: true,
+	runBehaviour(ctx, behaviour{Name: "defaults", Cases: cases, Devs: c09Devs, Values: true, Respell: true,
 		OnBuildErr: func(sc *SCase, msg string) {
 			attributeBuild(ctx, sc, msg, c09BuildRules, map[string]any{"kind": "gen", "files": sc.Case().Files, "cfg": sc.Case().Cfg, "compiler": msg})
 		},
